@@ -316,6 +316,19 @@ fn run_stream_case(s: &Spec, idx: u64, t: &mut Tally) {
             report(r, "wrapped".into(), t);
         }
     }
+    // A2. the same tokens behind the 8-byte LZ11 header (24-bit size 0, 32-bit size follows):
+    // the format gives that form no minimum size
+    if s.kind == Kind::Lz11 {
+        let ext = ref_lz::encode_with_header(&toks, s.kind, total, None, true);
+        for e in ENTRIES {
+            if e.is_lz13() {
+                let r = check(e, &ext, "bare stream with the 8-byte header", t);
+                report(r, "ext".into(), t);
+                let r = check(e, &wrap13(&ext), "0x13-wrapped stream with the 8-byte header", t);
+                report(r, "wext".into(), t);
+            }
+        }
+    }
     // B1. strict prefixes
     let preamble_bytes = if s.start <= 17 { 0 } else { 4 + s.start + (s.start + 7) / 8 - 2 };
     let mut cuts: Vec<usize> = Vec::new();
